@@ -109,7 +109,11 @@ class FakeSnowflakeCursor:
 
         describe = f"DESCRIBE {command}"
         self.execute(describe, *args, **kwargs)
-        return describe_as_result_metadata(self.fetchall())
+        rows = self.fetchall()
+        if self._use_dict_result:
+            # a DictCursor hands out the DESCRIBE rows as dicts
+            rows = [tuple(cast(dict, row).values()) for row in rows]
+        return describe_as_result_metadata(rows)
 
     @property
     def description(self) -> list[ResultMetadata]:
